@@ -625,12 +625,29 @@ static void mutate_pair(cbor_item_t* it, rnode* sh, struct vh_rng* r, int depth)
       g_pair_mutations++;
       break;
     }
-    case R_FLOAT:
-      if (sh->width == 1) { uint16_t h = (uint16_t)vh_rand(r); if (ref_is_nan16(h)) h = 0x3c00; uint32_t b = ref_half_to_single_bits(h); float f; memcpy(&f, &b, 4); cbor_set_float2(it, f); sh->val = h; }
-      else if (sh->width == 2) { uint32_t b = (uint32_t)vh_rand(r); float f; memcpy(&f, &b, 4); cbor_set_float4(it, f); sh->val = b; }
-      else { uint64_t b = vh_rand(r); double d; memcpy(&d, &b, 8); cbor_set_float8(it, d); sh->val = b; }
+    case R_FLOAT: {
+      /* the new value: random bits, or one that compares equal to / differs only in sign from the old one (setters that
+       * skip "unchanged" values must compare bits, not numbers), or a zero, or an infinity */
+      int how = (int)vh_below(r, 6);
+      /* half of the edits are made while the client holds a second reference to the item, as when it was obtained with
+       * cbor_array_get for editing in place */
+      bool extra = vh_below(r, 2);
+      if (extra) cbor_incref(it);
+      if (sh->width == 1) {
+        uint16_t h = how == 0 ? (uint16_t)(sh->val ^ 0x8000) : how == 1 ? 0x8000 : how == 2 ? 0x0000 : how == 3 ? 0x7c00 : (uint16_t)vh_rand(r);
+        if (ref_is_nan16(h)) h = 0x3c00;
+        uint32_t b = ref_half_to_single_bits(h); float f; memcpy(&f, &b, 4); cbor_set_float2(it, f); sh->val = h;
+      } else if (sh->width == 2) {
+        uint32_t b = how == 0 ? (uint32_t)(sh->val ^ 0x80000000u) : how == 1 ? 0x80000000u : how == 2 ? 0 : how == 3 ? 0xff800000u : (uint32_t)vh_rand(r);
+        float f; memcpy(&f, &b, 4); cbor_set_float4(it, f); sh->val = b;
+      } else {
+        uint64_t b = how == 0 ? (sh->val ^ 0x8000000000000000ull) : how == 1 ? 0x8000000000000000ull : how == 2 ? 0 : how == 3 ? 0x7ff0000000000000ull : vh_rand(r);
+        double d; memcpy(&d, &b, 8); cbor_set_float8(it, d); sh->val = b;
+      }
+      if (extra) { cbor_item_t* t2 = it; cbor_decref(&t2); }
       g_pair_mutations++;
       break;
+    }
     case R_SIMPLE: {
       uint64_t v = 20 + vh_below(r, 4);
       if (cbor_is_bool(it) && v <= 21 && vh_below(r, 2)) cbor_set_bool(it, v == 21); else cbor_set_ctrl(it, (uint8_t)v);
